@@ -119,6 +119,19 @@ func posStream(args []string) int {
 				after = p.StringFen()
 			}
 			p.UndoMove()
+			// the predicates must not depend on what was asked before: the same questions on a position
+			// fresh from the FEN on which nothing (not even the in-check test) has been evaluated yet
+			if fr, err := position.NewPositionFen(fen); err == nil && fr != nil && (m.MoveType() != Normal || rng.Chance(15)) {
+				gc2 := fr.GivesCheck(m)
+				fr.DoMove(m)
+				lpost2 := fr.WasLegalMove()
+				fr.UndoMove()
+				lpre2 := fr.IsLegalMove(m)
+				if gc2 != gc || lpost2 != lpost || lpre2 != lpre {
+					rep.Violate("predicate-depends-on-call-order", map[string]interface{}{"fen": fen, "move": m.StringUci()},
+						fmt.Sprintf("after HasCheck()/generation: givesCheck=%v legalPre=%v legalPost=%v ; on a fresh position: givesCheck=%v legalPre=%v legalPost=%v", gc, lpre, lpost, gc2, lpre2, lpost2))
+				}
+			}
 			mvs = append(mvs, fmt.Sprintf("%d:%s:%s:%s:%s", int(m.MoveOf()), b01(gc), b01(lpre), b01(lpost), after))
 			switch m.MoveType() {
 			case Castling:
